@@ -44,12 +44,20 @@ def run_pipeline(pid, tier, seed, replay, *, driver, model, trace_module, trace_
         rp = os.path.join(d, "replays.jsonl")
         with open(rp, "w") as f:
             f.write(json.dumps(rj["spec"]) + "\n")
-        p = vh([driver, "replay", "--in", rp, "--jobs", 1, "--out", os.path.join(d, "rep")] + extra_vh, security=security)
+        replay_src = extra_sources[rj["source"]] if rj.get("source") is not None and rj["source"] < len(extra_sources) else None
+        if replay_src is None:
+            p = vh([driver, "replay", "--in", rp, "--jobs", 1, "--out", os.path.join(d, "rep")] + extra_vh, security=security)
+        else:
+            # the run came from an additional source: its own driver and trace specification
+            p = vh([replay_src["driver"], "replay", "--in", rp, "--jobs", 1, "--out", os.path.join(d, f"src{rj['source']}", "rep")])
         rep_stats = json.loads(p.stdout.strip().splitlines()[-1])
         rnd_stats = {"runs": 0, "events": 0}
     files = sorted(glob.glob(os.path.join(d, "rep", "trace_*.ndjson")) + glob.glob(os.path.join(d, "rnd", "trace_*.ndjson")))
     # additional sources (another driver / model whose traces also speak about this property)
     extra_results = []
+    if replay is not None and replay_src is not None:
+        f2 = sorted(glob.glob(os.path.join(d, f"src{rj['source']}", "rep", "trace_*.ndjson")))
+        extra_results += validate_traces(replay_src["trace_module"], replay_src["trace_cfg"], f2, pid, jobs=1, constants_env=replay_src.get("env"))
     if replay is None:
         for k, src in enumerate(extra_sources):
             scfg = src["tiers"][tier]
@@ -73,7 +81,7 @@ def run_pipeline(pid, tier, seed, replay, *, driver, model, trace_module, trace_
             p = vh([src["driver"], src.get("random_mode", "random"), "--seed", seed, "--runs", r2["runs"], "--events", r2["events"], "--jobs", 8, "--out", os.path.join(sd, "rnd")])
             st = json.loads(p.stdout.strip().splitlines()[-1]); rnd_stats["runs"] += st["runs"]
             f2 = sorted(glob.glob(os.path.join(sd, "*", "trace_*.ndjson")))
-            extra_results += validate_traces(src["trace_module"], src["trace_cfg"], f2, pid, jobs=8)
+            extra_results += validate_traces(src["trace_module"], src["trace_cfg"], f2, pid, jobs=8, constants_env=src.get("env"))
     kf = known_findings(pid)
     cenv = {name: "0" for name in known_env}
     for e in kf:
@@ -83,12 +91,14 @@ def run_pipeline(pid, tier, seed, replay, *, driver, model, trace_module, trace_
     results = results + extra_results
     violations, known_lines, other = [], [], {}
     events = 0
+    def source_of(path):
+        return next((k for k in range(len(extra_sources)) if f"{os.sep}src{k}{os.sep}" in path), None)
     for res in results:
         events += res["events"]
         if res["stuck_line"] is not None:
             run_no, lines = cut_run(res["file"], res["stuck_line"])
             path = write_replay(pid, f"replay-stuck-{len(violations)}.json",
-                                {"property": pid, "why": "no action of the specification explains this event", "spec": recover_spec(res["file"], run_no), "trace": lines})
+                                {"property": pid, "why": "no action of the specification explains this event", "source": source_of(res["file"]), "spec": recover_spec(res["file"], run_no), "trace": lines})
             violations.append((f"event {res['stuck_line']} of {os.path.relpath(res['file'], ROOT)} is not a behaviour of the spec: {res.get('stuck_raw','')[:200]}", path))
         for v in res["viols"]:
             mine = [c for c in v.get("clauses", []) if c.startswith(prefixes)]
@@ -114,7 +124,7 @@ def run_pipeline(pid, tier, seed, replay, *, driver, model, trace_module, trace_
             except Exception:
                 bad_event = None
             path = write_replay(pid, f"replay-{len(violations)}.json",
-                                {"property": pid, "clauses": mine, "violating_event": bad_event, "spec": recover_spec(res["file"], run_no), "trace": lines})
+                                {"property": pid, "clauses": mine, "violating_event": bad_event, "source": source_of(res["file"]), "spec": recover_spec(res["file"], run_no), "trace": lines})
             violations.append((f"clauses {mine} at event {v['line']} (run {run_no}) of {os.path.relpath(res['file'], ROOT)}", path))
     runs_total = rep_stats["runs"] + rnd_stats["runs"]
     sample = None
